@@ -549,3 +549,37 @@ func hasPrefixAny(s string, ps ...string) bool {
 	}
 	return false
 }
+
+// regionFuncs returns fn together with the functions of the same package it statically calls (transitively):
+// the code a maintainer may have moved out of fn into helpers.
+func regionFuncs(p *an.Prog, fn *ssa.Function) []*ssa.Function {
+	pkgOf := func(f *ssa.Function) string {
+		for f.Parent() != nil {
+			f = f.Parent()
+		}
+		if f.Pkg == nil {
+			return ""
+		}
+		return f.Pkg.Pkg.Path()
+	}
+	home := pkgOf(fn)
+	seen := map[*ssa.Function]bool{fn: true}
+	out := []*ssa.Function{fn}
+	for i := 0; i < len(out); i++ {
+		for _, f := range an.WithAnon(out[i]) {
+			if !seen[f] {
+				seen[f] = true
+				out = append(out, f)
+			}
+			for _, c := range an.Calls(f, false) {
+				cal := c.Common().StaticCallee()
+				if cal == nil || seen[cal] || len(cal.Blocks) == 0 || !p.InRepo(cal) || pkgOf(cal) != home {
+					continue
+				}
+				seen[cal] = true
+				out = append(out, cal)
+			}
+		}
+	}
+	return out
+}
